@@ -179,14 +179,17 @@ pub fn dec(rng: &mut Rng) -> D {
         1 => D::new(rng.range(-20, 20), 0),
         2 => D::new(rng.range(-9, 9) * 100, 3),       // 0.500 style trailing zeros
         3 => D::new(rng.range(-999_999_999_999, 999_999_999_999), rng.below(9) as u32),
-        4 => D::new(rng.range(1, 9), 6),              // .000005
+        4 => if rng.coin() { D::new(rng.range(1, 9), 6) } else {
+            // many significant digits: exact only if never passed through a double
+            D::from_i128_with_scale([1234567890123456789i128, 10000000000000000001, -314159265358979323846264338, 99999999999999999999999][rng.below(4) as usize], [19u32, 19, 26, 10][rng.below(4) as usize])
+        },
         5 => D::new(rng.range(-99, 99), 2),
         _ => D::new(rng.range(-100000, 100000), rng.below(5) as u32),
     }
 }
 fn posdec(rng: &mut Rng) -> D { D::new(rng.range(1, 100000), rng.below(5) as u32) }
 fn pt(rng: &mut Rng) -> LefPoint { LefPoint::new(dec(rng), dec(rng)) }
-fn mask(rng: &mut Rng) -> Option<LefMask> { if rng.chance(1, 3) { Some(LefMask::new(D::new(rng.range(1, 3), 0))) } else { None } }
+fn mask(rng: &mut Rng) -> Option<LefMask> { if rng.chance(1, 3) { Some(LefMask::new(D::new(rng.range(0, 3), 0))) } else { None } } // MASK 0 is a value too
 fn strlit(rng: &mut Rng) -> String {
     let body = *rng.pick(&["abc", "", "a b c", "x # y", "semi ; colon", "größe 中", "𝄞", "END LIBRARY", "1.5", "tab\there", "it's"]);
     format!("\"{}\"", body)
@@ -742,18 +745,50 @@ pub fn op_crash(args: &[Sexp]) -> String {
         }
     }
 }
-fn big_text(n: usize, bad_tail: bool) -> String {
-    let mut s = String::from("VERSION 5.8 ;\nMACRO big\n");
-    for i in 0..n {
-        s.push_str(&format!("  PIN p{} DIRECTION INPUT ; PORT LAYER m1 ; RECT {} 0.5 {}.25 1 ; END END p{}\n", i, i, i, i));
+fn big_text(n: usize, bad_tail: bool, shape: i64) -> String {
+    let mut s = String::from("VERSION 5.8 ;\n");
+    match shape {
+        1 => {
+            // one extension block of n lines of tokens that are not keywords
+            s.push_str("BEGINEXT \"tag\"\n");
+            for i in 0..n { s.push_str(&format!("  item{} 1.5 \"s{}\" ;\n", i, i)); }
+            s.push_str(if bad_tail { "\n" } else { "ENDEXT\n" });
+        }
+        2 => {
+            // n small macros
+            for i in 0..n { s.push_str(&format!("MACRO m{}\n  CLASS CORE ;\n  SIZE 1 BY 2 ;\nEND m{}\n", i, i)); }
+            if bad_tail { s.push_str("MACRO x\n"); }
+        }
+        3 => {
+            // n comment lines and blank lines, then one macro; and one very long line of coordinates
+            for i in 0..n { s.push_str(&format!("# comment {} é\n\n", i)); }
+            s.push_str("MACRO m\n  OBS LAYER l ; POLYGON");
+            for i in 0..n { s.push_str(&format!(" {} {}", i, i + 1)); }
+            s.push_str(if bad_tail { " x ; END\nEND m\n" } else { " ; END\nEND m\n" });
+        }
+        4 => {
+            // one macro with n properties in one statement and n property definitions
+            s.push_str("PROPERTYDEFINITIONS\n");
+            for i in 0..n { s.push_str(&format!("  MACRO p{} REAL RANGE 0 {} 1.5 ;\n", i, i + 1)); }
+            s.push_str("END PROPERTYDEFINITIONS\nMACRO m\n  PROPERTY");
+            for i in 0..n { s.push_str(&format!(" p{} {}", i, i)); }
+            s.push_str(if bad_tail { " ;\nEND mm\n" } else { " ;\nEND m\n" });
+        }
+        _ => {
+            s.push_str("MACRO big\n");
+            for i in 0..n {
+                s.push_str(&format!("  PIN p{} DIRECTION INPUT ; PORT LAYER m1 ; RECT {} 0.5 {}.25 1 ; END END p{}\n", i, i, i, i));
+            }
+            s.push_str(if bad_tail { "END bigg\n" } else { "END big\n" });
+        }
     }
-    s.push_str(if bad_tail { "END bigg\n" } else { "END big\n" });
     s
 }
 pub fn op_big(args: &[Sexp]) -> String {
     let n = match args.get(0).and_then(|a| a.int()) { Some(n) if n > 0 && n <= 400_000 => n as usize, _ => return "bad-op".into() };
     let bad = args.get(1).and_then(|a| a.boolean()).unwrap_or(false);
-    let txt = big_text(n, bad);
+    let shape = args.get(2).and_then(|a| a.int()).unwrap_or(0);
+    let txt = big_text(n, bad, shape);
     let t0 = std::time::Instant::now();
     let r = lef21::verif_hooks::parse_str(&txt);
     let ms = t0.elapsed().as_millis();
@@ -951,12 +986,12 @@ pub fn gen_c11(thorough: bool, rng: &mut Rng, out: &mut Vec<String>) {
         }
         let _ = b;
     }
-    out.push("lef.big 2000".into());
-    out.push("lef.big 2000 #t".into());
-    if thorough {
-        out.push("lef.big 100000".into());
-        out.push("lef.big 100000 #t".into());
-    } else {
-        out.push("lef.big 20000".into());
+    // big inputs of five shapes (pins, one extension block, many macros, comments + one long line,
+    // property lists), valid and failing at the very end: reading time must stay proportional
+    let n = if thorough { 100000 } else { 20000 };
+    for shape in 0..5 {
+        out.push(format!("lef.big 2000 #f {}", shape));
+        out.push(format!("lef.big {} #f {}", n, shape));
+        out.push(format!("lef.big {} #t {}", n, shape));
     }
 }
